@@ -36,8 +36,8 @@
 #define MAXB 48
 #define MAXQ 96
 #define MAXARGS 80
-#define NPOOL 8
-#define POOLSZ 16384
+#define NPOOL 4
+#define POOLSZ 4096
 
 /* ---- privatised globals under test (C36) ------------------------------------------------------------- */
 int g_i               = 12345;          /* .data  */
@@ -71,7 +71,9 @@ typedef struct {
   size_t len, cap;
   unsigned char* tab;
   void* battach;
-  int fstat_calls;
+  int gvars;      /* C36: snapshot the privatised globals right after every MPI communication call returns */
+  int snapped;
+  char snap[256];
 } st_t;
 
 static void die(const char* fmt, ...)
@@ -302,6 +304,21 @@ static void lg_globals(st_t* s)
   lg(s, " %d %lld %a %u %u %d %u %d", g_i, s_ll, g_d, h, h2, *fn_static(), (unsigned)s_arr[0], g_tab[0]);
 }
 
+static void snap_globals(st_t* s)
+{
+  if (!s->gvars)
+    return;
+  unsigned h = 2166136261u;
+  for (int i = 0; i < 64; i++)
+    h = (h ^ s_arr[i]) * 16777619u;
+  unsigned h2 = 2166136261u;
+  for (int i = 0; i < 32; i++)
+    h2 = (h2 ^ (unsigned)g_tab[i]) * 16777619u;
+  snprintf(s->snap, sizeof s->snap, " G %d %lld %a %u %u %d %u %d", g_i, s_ll, g_d, h, h2, *fn_static(), (unsigned)s_arr[0], g_tab[0]);
+  s->snapped = 1;
+}
+#define SNAP snap_globals(s)
+
 static void run_op(st_t* s, int idx, op_t* o)
 {
   const char* nm = o->name;
@@ -409,14 +426,14 @@ static void run_op(st_t* s, int idx, op_t* o)
     MPI_Comm c = C(s, a[7]);
     int q      = (int)a[8];
     switch (a[0]) {
-      case 0: rc = MPI_Send(p, cnt, t, dst, tag, c); break;
-      case 1: rc = MPI_Ssend(p, cnt, t, dst, tag, c); break;
-      case 2: rc = MPI_Bsend(p, cnt, t, dst, tag, c); break;
-      case 3: rc = MPI_Rsend(p, cnt, t, dst, tag, c); break;
-      case 4: rc = MPI_Isend(p, cnt, t, dst, tag, c, &s->req[q]); break;
-      case 5: rc = MPI_Issend(p, cnt, t, dst, tag, c, &s->req[q]); break;
-      case 6: rc = MPI_Ibsend(p, cnt, t, dst, tag, c, &s->req[q]); break;
-      case 7: rc = MPI_Irsend(p, cnt, t, dst, tag, c, &s->req[q]); break;
+      case 0: rc = MPI_Send(p, cnt, t, dst, tag, c); SNAP; break;
+      case 1: rc = MPI_Ssend(p, cnt, t, dst, tag, c); SNAP; break;
+      case 2: rc = MPI_Bsend(p, cnt, t, dst, tag, c); SNAP; break;
+      case 3: rc = MPI_Rsend(p, cnt, t, dst, tag, c); SNAP; break;
+      case 4: rc = MPI_Isend(p, cnt, t, dst, tag, c, &s->req[q]); SNAP; break;
+      case 5: rc = MPI_Issend(p, cnt, t, dst, tag, c, &s->req[q]); SNAP; break;
+      case 6: rc = MPI_Ibsend(p, cnt, t, dst, tag, c, &s->req[q]); SNAP; break;
+      case 7: rc = MPI_Irsend(p, cnt, t, dst, tag, c, &s->req[q]); SNAP; break;
       default: die("bad send mode");
     }
     if (a[0] >= 4)
@@ -437,10 +454,12 @@ static void run_op(st_t* s, int idx, op_t* o)
     lg(s, " %lld %lld", usrc(src), utag(tag));
     if (a[0] == 0) {
       rc = MPI_Recv(p, cnt, t, src, tag, c, &st);
+    SNAP;
       lg(s, " %s", ecls(rc));
       lg_status(s, &st, (int)a[4]);
     } else {
       rc            = MPI_Irecv(p, cnt, t, src, tag, c, &s->req[q]);
+    SNAP;
       s->reqtype[q] = (int)a[4];
       lg(s, " %s", ecls(rc));
     }
@@ -449,11 +468,13 @@ static void run_op(st_t* s, int idx, op_t* o)
     NEED(13);
     rc = MPI_Sendrecv(B(s, a[0], a[1]), (int)a[2], T(s, a[3]), SRC(a[4]), (int)a[5], B(s, a[6], a[7]), (int)a[8],
                       T(s, a[9]), SRC(a[10]), TAG(a[11]), C(s, a[12]), &st);
+    SNAP;
     lg(s, " %s", ecls(rc));
     lg_status(s, &st, (int)a[9]);
   } else if (IS("probe")) { /* probe src tag c */
     NEED(3);
     rc = MPI_Probe(SRC(a[0]), TAG(a[1]), C(s, a[2]), &st);
+    SNAP;
     lg(s, " %s 1", ecls(rc));
     lg_status(s, &st, -1);
     s->probe_flag = 1;
@@ -463,6 +484,7 @@ static void run_op(st_t* s, int idx, op_t* o)
     NEED(3);
     int flag = 0;
     rc       = MPI_Iprobe(SRC(a[0]), TAG(a[1]), C(s, a[2]), &flag, &st);
+    SNAP;
     lg(s, " %s %d", ecls(rc), flag);
     if (flag) {
       lg_status(s, &st, -1);
@@ -476,6 +498,7 @@ static void run_op(st_t* s, int idx, op_t* o)
     int q   = (int)a[0];
     int was = s->req[q] != MPI_REQUEST_NULL;
     rc      = MPI_Wait(&s->req[q], &st);
+    SNAP;
     lg(s, " %s %d", ecls(rc), was);
     lg_status(s, &st, s->reqtype[q]);
   } else if (IS("test")) {
@@ -483,6 +506,7 @@ static void run_op(st_t* s, int idx, op_t* o)
     int q = (int)a[0], flag = 0;
     int was = s->req[q] != MPI_REQUEST_NULL;
     rc      = MPI_Test(&s->req[q], &flag, &st);
+    SNAP;
     lg(s, " %s %d %d", ecls(rc), was, flag);
     if (flag)
       lg_status(s, &st, s->reqtype[q]);
@@ -499,12 +523,14 @@ static void run_op(st_t* s, int idx, op_t* o)
     }
     if (IS("waitall")) {
       rc = MPI_Waitall(n, rq, sts);
+    SNAP;
       lg(s, " %s", ecls(rc));
       for (int i = 0; i < n; i++)
         lg_status(s, &sts[i], s->reqtype[a[1 + i]]);
     } else if (IS("testall")) {
       int flag = 0;
       rc       = MPI_Testall(n, rq, &flag, sts);
+    SNAP;
       lg(s, " %s %d", ecls(rc), flag);
       if (flag)
         for (int i = 0; i < n; i++)
@@ -512,12 +538,14 @@ static void run_op(st_t* s, int idx, op_t* o)
     } else if (IS("waitany")) {
       int ix = -5;
       rc     = MPI_Waitany(n, rq, &ix, &st);
+    SNAP;
       lg(s, " %s %lld", ecls(rc), utag(ix));
       if (ix >= 0 && ix < n)
         lg_status(s, &st, s->reqtype[a[1 + ix]]);
     } else {
       int outc = -5;
       rc       = MPI_Waitsome(n, rq, &outc, idxs, sts);
+    SNAP;
       lg(s, " %s %lld", ecls(rc), utag(outc));
       for (int i = 0; i < outc && outc <= n; i++) {
         lg(s, " @%d", idxs[i]);
@@ -544,31 +572,37 @@ static void run_op(st_t* s, int idx, op_t* o)
   } else if (IS("barrier")) {
     NEED(1);
     rc = MPI_Barrier(C(s, a[0]));
+    SNAP;
     lg(s, " %s", ecls(rc));
   } else if (IS("exec")) { /* exec flops */
     NEED(1);
     smpi_execute_flops((double)a[0]);
+    SNAP;
   } else if (IS("sleep")) { /* sleep nanoseconds (simulated) */
     NEED(1);
     struct timespec ts;
     ts.tv_sec  = (time_t)(a[0] / 1000000000LL);
     ts.tv_nsec = (long)(a[0] % 1000000000LL);
     nanosleep(&ts, NULL);
+    SNAP;
   }
   /* ------------------------------------------------------------------ communicators and groups */
   else if (IS("csplit")) { /* csplit cnew cold color key   (color -1 = MPI_UNDEFINED) */
     NEED(4);
     rc = MPI_Comm_split(C(s, a[1]), a[2] == -1 ? MPI_UNDEFINED : (int)a[2], (int)a[3], &s->comm[a[0]]);
+    SNAP;
     lg(s, " %s", ecls(rc));
     lg_comm(s, s->comm[a[0]]);
   } else if (IS("cdup")) {
     NEED(2);
     rc = MPI_Comm_dup(C(s, a[1]), &s->comm[a[0]]);
+    SNAP;
     lg(s, " %s", ecls(rc));
     lg_comm(s, s->comm[a[0]]);
   } else if (IS("ccreate")) { /* ccreate cnew cold g */
     NEED(3);
     rc = MPI_Comm_create(C(s, a[1]), G(s, a[2]), &s->comm[a[0]]);
+    SNAP;
     lg(s, " %s", ecls(rc));
     lg_comm(s, s->comm[a[0]]);
   } else if (IS("cfree")) {
@@ -848,6 +882,10 @@ int main(int argc, char** argv)
       np_plan = atoi(p);
       continue;
     }
+    if (!strcmp(name, "gvars")) {
+      s->gvars = atoi(p);
+      continue;
+    }
     if (!strcmp(name, "rank")) {
       mine = (atoi(p) == s->rank);
       continue;
@@ -887,7 +925,10 @@ int main(int argc, char** argv)
   for (int i = 0; i < nops; i++) {
     /* results are formatted first; the header (with the completion time) is prepended afterwards */
     s->len = 0;
+    s->snapped = 0;
     run_op(s, i, &ops[i]);
+    if (s->snapped)
+      lg(s, "%s", s->snap);
     double t = MPI_Wtime();
     char hdr[96];
     int hl = snprintf(hdr, sizeof hdr, "%d %d %s %a", s->rank, i, ops[i].name, t);
